@@ -269,3 +269,121 @@ func TestC16_OffCurveForgery(t *testing.T) {
 		st.Case(true, fmt.Sprint("forgery|", kt, x, y, k, msg), "off-curve-forgery-"+kt.String())
 	})
 }
+
+// TestC16_ConstructedPoints: the encoding is exact for every point of the curve, not only for points that come out of key
+// generation: x is chosen (around the group order n, the field prime p, and 0) and y solved from the curve equation.
+// Coordinates in [n, p) are legal: n bounds scalars, not coordinates.
+func TestC16_ConstructedPoints(t *testing.T) {
+	st := statsFor("C16")
+	check(t, "C16", 400, func(t *rapid.T) {
+		kt := rapid.SampledFrom([]keyType{ktSecp256k1, ktP256, ktP384, ktP521}).Draw(t, "kt")
+		curve := curveOf(kt)
+		pr := curve.Params()
+		w := kt.Width()
+		var x *big.Int
+		region := rapid.SampledFrom([]string{"at-n", "between-n-and-p", "below-p", "small"}).Draw(t, "region")
+		off := big.NewInt(int64(rapid.IntRange(0, 2000).Draw(t, "offset")))
+		switch region {
+		case "at-n":
+			x = new(big.Int).Add(pr.N, off)
+		case "between-n-and-p":
+			span := new(big.Int).Sub(pr.P, pr.N)
+			x = new(big.Int).Add(pr.N, new(big.Int).Div(span, big.NewInt(int64(rapid.IntRange(2, 9).Draw(t, "fraction")))))
+			x.Add(x, off)
+		case "below-p":
+			x = new(big.Int).Sub(pr.P, new(big.Int).Add(off, big.NewInt(1)))
+		default:
+			x = off
+		}
+		// next x (cyclically below p) for which x^3 + ax + b is a square
+		var y *big.Int
+		for i := 0; i < 200 && y == nil; i++ {
+			x.Mod(x, pr.P)
+			rhs := new(big.Int).Exp(x, big.NewInt(3), pr.P)
+			if kt != ktSecp256k1 {
+				rhs.Sub(rhs, new(big.Int).Mul(big.NewInt(3), x)) // a = -3 for the NIST curves
+			}
+			rhs.Add(rhs, pr.B)
+			rhs.Mod(rhs, pr.P)
+			if r := new(big.Int).ModSqrt(rhs, pr.P); r != nil {
+				y = r
+			} else {
+				x.Add(x, big.NewInt(1))
+			}
+		}
+		if y == nil || !curve.IsOnCurve(x, y) {
+			t.Fatalf("harness: no point found near x (inconclusive)")
+		}
+		if rapid.Bool().Draw(t, "otherRoot") {
+			y = new(big.Int).Sub(pr.P, y)
+		}
+		pub := &ecdsa.PublicKey{Curve: curve, X: x, Y: y}
+		j, err := pubkey.GetPublicKeyJWK(pub)
+		if err != nil {
+			t.Fatalf("C16 %s: GetPublicKeyJWK refused a point of the curve (x=%x y=%x, x>=n: %v): %v", kt, x, y, x.Cmp(pr.N) >= 0, err)
+		}
+		wantX, wantY := b64(x.FillBytes(make([]byte, w))), b64(y.FillBytes(make([]byte, w)))
+		if j.X != wantX || j.Y != wantY || j.Kty != "EC" || j.Crv != kt.Crv() {
+			t.Fatalf("C16 %s: constructed point encoded as %+v, want x=%s y=%s", kt, j, wantX, wantY)
+		}
+		back, err := unmarshalJWK(j)
+		if err != nil {
+			t.Fatalf("C16 %s: JWK of a constructed point not readable: %v (%+v)", kt, err, j)
+		}
+		if pk, ok := back.Key.(*ecdsa.PublicKey); !ok || pk.X.Cmp(x) != 0 || pk.Y.Cmp(y) != 0 {
+			t.Fatalf("C16 %s: constructed point read back differs", kt)
+		}
+		alg := rapid.SampledFrom([]uint{18, 19}).Draw(t, "alg")
+		want := map[string]interface{}{"kty": "EC", "crv": kt.Crv(), "x": wantX, "y": wantY}
+		if c, err := commitment.GetCommitment(j, alg); err != nil || c != refCommitmentOf(want, alg) {
+			t.Fatalf("C16 %s: commitment of a constructed point %q (%v), reference %q", kt, c, err, refCommitmentOf(want, alg))
+		}
+		lz := x.BitLen() <= (w-1)*8 || y.BitLen() <= (w-1)*8
+		st.Case(region != "small" || lz, fmt.Sprint("constructed|", kt, x, y), "constructed-"+region, "constructed-"+kt.String())
+	})
+}
+
+// TestC16_PrivateJWK: a JWK that also carries the private scalar d is read by the same reader; its point must be on the
+// curve and of full width all the same.
+func TestC16_PrivateJWK(t *testing.T) {
+	st := statsFor("C16")
+	check(t, "C16", 600, func(t *rapid.T) {
+		kt := rapid.SampledFrom([]keyType{ktSecp256k1, ktP256, ktP384, ktP521}).Draw(t, "kt")
+		k := genKeyOf(t, kt, "key")
+		w := kt.Width()
+		x, y := k.XY()
+		d := k.EC.D.FillBytes(make([]byte, w))
+		text := func(x, y, d []byte) []byte {
+			return []byte(refJCS(map[string]interface{}{"kty": "EC", "crv": kt.Crv(), "x": b64(x), "y": b64(y), "d": b64(d)}))
+		}
+		var good jwsutil.JWK
+		if err := good.UnmarshalJSON(text(x, y, d)); err != nil {
+			t.Fatalf("C16 %s: valid private JWK refused: %v", k.Name, err)
+		}
+		if pk, ok := good.Public().Key.(*ecdsa.PublicKey); !ok || pk.X.Cmp(k.EC.X) != 0 || pk.Y.Cmp(k.EC.Y) != 0 {
+			t.Fatalf("C16 %s: public part of a private JWK differs from the key", k.Name)
+		}
+		bx, by := append([]byte{}, x...), append([]byte{}, y...)
+		label := ""
+		switch rapid.IntRange(0, 3).Draw(t, "mod") {
+		case 0:
+			by[len(by)-1] ^= 1
+			label = "private-off-curve-y"
+		case 1:
+			i := rapid.IntRange(0, len(bx)*8-1).Draw(t, "bit")
+			bx[i/8] ^= 1 << (i % 8)
+			label = "private-off-curve-x"
+		case 2:
+			bx = bx[:len(bx)-1]
+			label = "private-short-x"
+		default:
+			by = append([]byte{0}, by...)
+			label = "private-long-y"
+		}
+		var bad jwsutil.JWK
+		if err := bad.UnmarshalJSON(text(bx, by, d)); err == nil {
+			t.Fatalf("C16 %s: private JWK with a modified point (%s) accepted: %s", k.Name, label, text(bx, by, d))
+		}
+		st.Case(true, fmt.Sprint("private|", k.Name, label, bx, by), "mod-"+label, "type-"+kt.String())
+	})
+}
